@@ -609,6 +609,93 @@ pub fn make_open_race(p: OpenRaceParams) -> ScenarioFn {
     })
 }
 
+/// Server side: SYN + data for a NEW stream arrive in one transport read while the handler of an OLDER stream (which
+/// the peer may already have finished) is still sending — through the forwarding task or directly.
+pub fn make_syn_during_output(older_finished: bool, via_forwarder: bool) -> ScenarioFn {
+    scenario(move || async move {
+        let mut out = Outcome::default();
+        let link = peer_link(PipeCfg::new("c2s"), PipeCfg::new("s2c"));
+        let mut side = start_server_session(link.sess_r, link.sess_w, padding(STOP0), None);
+        let inj = link.peer.inj.clone();
+        let wire = link.peer.out.clone();
+        tokio::spawn(link.peer.sink());
+        let mut first = enc(SETTINGS, 0, &client_settings("x"));
+        first.extend_from_slice(&enc(SYN, 1, b""));
+        first.extend_from_slice(&enc(PSH, 1, &[0x11; 3]));
+        if older_finished {
+            first.extend_from_slice(&enc(FIN, 1, b""));
+        }
+        inj.push(&first);
+        let s1 = match within(side.streams.recv()).await {
+            Some(Some(s)) => s,
+            _ => {
+                out.viol("C02:stream-not-accepted", "stream 1 never reached the stream callback");
+                return out;
+            }
+        };
+        settle().await;
+        // the race
+        let sess = side.sess.clone();
+        let s1w = s1.clone();
+        let handler1 = tokio::spawn(async move {
+            hpoint("h.c02.older.handler").await;
+            for k in 0..2u8 {
+                let d = Bytes::from(vec![0x10 | k; 4]);
+                if via_forwarder {
+                    let _ = s1w.send_data(d);
+                } else {
+                    let _ = within(sess.write_data_frame(1, d)).await;
+                }
+                hpoint("h.c02.older.between").await;
+            }
+        });
+        let mut second = enc(SYN, 2, b"");
+        second.extend_from_slice(&enc(PSH, 2, &[0x21; 3]));
+        second.extend_from_slice(&enc(PSH, 2, &[0x22; 2]));
+        inj.push(&second);
+        let s2 = match within(side.streams.recv()).await {
+            Some(Some(s)) => s,
+            _ => {
+                out.viol("C02:stream-not-accepted", "stream 2 never reached the stream callback");
+                return out;
+            }
+        };
+        let _ = handler1.await;
+        tokio::time::sleep(Duration::from_secs(1)).await;
+        inj.push(&enc(PSH, 2, &[0x23; 1]));
+        tokio::time::sleep(Duration::from_secs(1)).await;
+        let (b2, eof2) = drain_stream(&s2).await;
+        let (b1, eof1) = drain_stream(&s1).await;
+        let want2: Vec<u8> = vec![0x21, 0x21, 0x21, 0x22, 0x22, 0x23];
+        out.obs = format!("s1={:02x?} eof={eof1} s2={:02x?} eof={eof2}", b1, b2);
+        if b2 != want2 || eof2 {
+            out.viol(
+                if b2.len() < want2.len() { "C02:bytes-disappeared" } else { "C02:stream-disturbed" },
+                format!("stream 2 (SYN and first data in one read, while the handler of the {} stream 1 was sending {}) read {:02x?} eof={eof2}; the peer sent {:02x?} and no FIN", if older_finished { "already finished" } else { "open" }, if via_forwarder { "through the forwarding task" } else { "directly" }, b2, want2),
+            );
+        }
+        if b1 != vec![0x11; 3] || eof1 != older_finished {
+            out.viol("C02:stream-disturbed", format!("stream 1 read {:02x?} eof={eof1}, expected three bytes 0x11 and eof={older_finished}", b1));
+        }
+        // the older stream's output carries its own id and bytes, in order
+        let (frames, left) = parse_all(&wire.written());
+        let mine: Vec<u8> = frames.iter().filter(|f| f.cmd == PSH && f.id == 1).flat_map(|f| f.data.clone()).collect();
+        let foreign = frames.iter().any(|f| f.cmd == PSH && f.id != 1);
+        // (whether a stream the peer has finished may still send is C08's question: there only cross-talk counts)
+        let complete = mine == vec![0x10, 0x10, 0x10, 0x10, 0x11, 0x11, 0x11, 0x11];
+        let own_bytes_only = mine.iter().all(|b| *b == 0x10 || *b == 0x11);
+        if left != 0 || foreign || !own_bytes_only || (!older_finished && !complete) {
+            out.viol("C02:output-disturbed", format!("the handler of stream 1 sent 4 x 0x10 then 4 x 0x11; wire: {} (leftover {left})", fmt_frames(&frames)));
+        }
+        if side.sess.is_closed() {
+            out.viol("C02:session-died", "session closed");
+        }
+        side.recv_task.abort();
+        side.fwd_task.abort();
+        out
+    })
+}
+
 pub fn send_params_json(p: &SendParams) -> serde_json::Value {
     json!({"part": "send-side", "writers": p.writers, "forward": p.forward, "up": p.up, "scheme": p.scheme_name})
 }
@@ -629,6 +716,14 @@ pub fn items(tier: Tier) -> Vec<DxItem> {
         it.exec.long_yield = 4;
         it.exec.quiesce = true;
         v.push(it);
+    }
+    for older_finished in [true, false] {
+        for via_forwarder in [true, false] {
+            let mut it = DxItem::new(json!({"part": "new-stream-during-older-streams-output", "older_stream_finished_by_peer": older_finished, "via_forwarder": via_forwarder}), make_syn_during_output(older_finished, via_forwarder), b);
+            it.exec.long_yield = 4;
+            it.exec.quiesce = true;
+            v.push(it);
+        }
     }
     v
 }
